@@ -309,8 +309,8 @@ def gen_case(rng, fixed=None):
     dt = rng.choice(DTS)
     start = rng.choice([0.0, 1.0, 2.0])
     n = rng.range(2, 9)
-    case = {"a": rng.choice([1.0, 2.0, 0.5, 1.5]), "b": rng.choice([1.0, 3.0, 0.25]), "s0": rng.choice([0.0, 1.0, 2.5]),
-            "c0": rng.choice([1.0, 2.0, 0.75]), "start": start, "dt": dt, "stop": round(start + n * dt, 10),
+    case = {"a": rng.choice([1.0, 2.0, 0.5, 1.5, 0.3]), "b": rng.choice([1.0, 3.0, 0.25, 1.1]), "s0": rng.choice([0.0, 1.0, 2.5, 0.7]),
+            "c0": rng.choice([1.0, 2.0, 0.75, 0.1]), "start": start, "dt": dt, "stop": round(start + n * dt, 10),
             "eqs": rng.choice(EQSETS), "calls": gen_calls(rng, n)}
     if fixed:
         case.update(fixed)
@@ -321,7 +321,7 @@ def fixed_cases():
     out = []
     for dt in DTS:                                    # whole run in every partition style, no settings
         for calls in ([("stream", None)], [("steps", 3, None), ("stream", None)], [("step", None)] * 12,
-                      [("step", None), ("steps", 2, None), ("step", None), ("stream", None), ("step", None)]):
+                      [("step", None), ("steps", 2, None), ("step", None), ("stream", None)]):
             out.append(dict(probe_case(dt, 6, [2, 1, 0], list(calls), start=1.0), a=2.0, b=3.0, s0=1.0))
     for eqs in EQSETS:                                # the §1 script: c -> 10 with the fourth step
         for dt in (1.0, 0.5):
@@ -344,8 +344,22 @@ def lazy_flag(eqs):
     return 1 if set(eqs) == {2} else 0
 
 
+class Skip(Exception):
+    pass
+
+
+def c05_clean(case):
+    """run specs on which the bare-float bound `until + dt` of SdSimulation (C05's defect, repaired there) does not
+    add a grid point: for every grid time t, timerange(t, t+dt, dt) == [t], and the batch grid ends at stop."""
+    from BPTK_Py.util import timerange
+    grid = timerange(case["start"], case["stop"] + case["dt"], case["dt"])
+    return bool(grid) and grid[-1] == case["stop"] and all(len(timerange(t, t + case["dt"], case["dt"])) == 1 for t in grid)
+
+
 def run_case(case, facts):
     """all channels on the real code + protocol lines + expected replies + reference verdicts"""
+    if not c05_clean(case):
+        raise Skip()
     labels, dfrows, dd, jj = batch_channels(case)
     n = len(labels) - 1
     tok = Tok(labels)
@@ -408,7 +422,7 @@ def shrink_case(case, facts, key):
     def fails(c):
         try:
             return any(p[0] == key for p in run_case(c, facts)[2])
-        except Exception:
+        except BaseException:
             return False
     calls = list(case["calls"])
     changed = True
@@ -439,12 +453,15 @@ def run(chk):
                        "run specs with 1/dt integral, stop = start + n*dt, stop > 0; settings = constants (points settings are not exercised)",
                        "one SD scenario per session"]
     rng = chk.rng.fork("c09")
-    cases = fixed_cases() + [gen_case(rng) for _ in range(60 if chk.quick else 1200)]
+    cases = fixed_cases() + [gen_case(rng) for _ in range(220 if chk.quick else 3000)]
     req, exp, owner = ["cfg %d %d %d" % (facts["dt"], facts["clock"], facts["final"])], ["ok"], [None]
     found, skipped, dist = {}, 0, {"dt": {}, "calls": {}, "eqsets": {}}
     for idx, case in enumerate(cases):
         try:
             r, e, problems, n = run_case(case, facts)
+        except Skip:
+            skipped += 1
+            continue
         except Exception as ex:  # noqa  (a channel crashed: that is a disagreement with the channels that did not)
             problems, r, e, n = [("channel-error", "%s: %s" % (type(ex).__name__, ex), {})], [], [], -1
         dist["dt"][str(case["dt"])] = dist["dt"].get(str(case["dt"]), 0) + 1
@@ -457,6 +474,7 @@ def run(chk):
         for key, text, detail in problems:
             found.setdefault(key, (case, text, detail))
     chk.cov["input_distribution"] = dist
+    chk.cov["skipped_run_specs_hit_by_C05_until_plus_dt"] = skipped
     chk.cov["rule"] = ("34 fixed cases (5 dt values x 4 partitions of a whole run without settings; 7 requested-equation sets x 2 dt with a constant "
                        "changed at the fourth step) + seeded random cases: model coefficients x (start, dt, n) x requested set x 1..6 calls "
                        "(run-step / run-steps m / stream-steps, each with or without a new value of c); per case 3 batch formats, REST run, "
@@ -467,12 +485,21 @@ def run(chk):
     if diff is None and len(model) != len(exp):
         diff = min(len(model), len(exp))
     chk.notes["correspondence_first_diff"] = diff
+    if diff is not None:
+        chk.notes["correspondence_diff_context"] = {"case": case_show(cases[owner[diff]]) if diff < len(owner) and owner[diff] is not None else None,
+                                                    "request": req[diff] if diff < len(req) else None,
+                                                    "model": model[diff] if diff < len(model) else None, "impl": exp[diff] if diff < len(exp) else None}
     # ---- decide
     texts = {"session-dt-ignored": "a session on a scenario with dt != 1 steps with dt = 1.0",
              "session-clock-drift": "the session clock is advanced by bare float addition: labels leave the batch grid",
              "settings-leak-one-step-back": "a constant changed with step k is used for t_(k-1) when its dependents there were not memoised"}
     for key, (case, text, detail) in found.items():
         small = shrink_case(case, facts, key) if key != "channel-error" else case
+        if small is not case:
+            try:
+                text, detail = next((p[1], p[2]) for p in run_case(small, facts)[2] if p[0] == key)
+            except BaseException:
+                small = case
         chk.add_finding(key, f"{texts.get(key, key)}: {case_show(small)}: {text}", {"case": small, "key": key, "detail": detail})
     for fact, key in (("dt", "session-dt-ignored"), ("clock", "session-clock-drift"), ("final", "settings-leak-one-step-back")):
         if not facts[fact] and key not in found:
@@ -503,6 +530,8 @@ def replay(path):
     print("case:", case_show(case), "facts:", facts)
     try:
         problems = run_case(case, facts)[2]
+    except Skip:
+        print("run spec is hit by C05's `until + dt` bound defect; not a C09 case"); return 0
     except Exception as ex:  # noqa
         problems = [("channel-error", "%s: %s" % (type(ex).__name__, ex), {})]
     for p in problems:
